@@ -24,11 +24,11 @@ func (s *seg) FullSize() int64 { return s.Full }
 func (s *seg) LiveSize() int64 { return s.Live }
 
 type opts struct {
-	Mpt    int   `json:"mpt"`
-	Max    int64 `json:"max"`
-	G2     int   `json:"g2"` // twice the tier growth, so that 1.5 and 2.5 can be given
-	Width  int   `json:"width"`
-	Floor  int64 `json:"floor"`
+	Mpt   int   `json:"mpt"`
+	Max   int64 `json:"max"`
+	G2    int   `json:"g2"` // twice the tier growth, so that 1.5 and 2.5 can be given
+	Width int   `json:"width"`
+	Floor int64 `json:"floor"`
 }
 
 func (o opts) real() *mergeplan.Options {
